@@ -18,8 +18,13 @@ func C09(r *ev.Run) {
 		Report(r, b, live.Viols)
 		Account(r, b, live.Cnt)
 		SampleRun(r, b, "directed scenario "+b.Spec.Profile)
+		live = &mon.Live{AsyncPrefix: true}
+		b = DirectedCommitSplit(live)
+		Report(r, b, live.Viols)
+		Account(r, b, live.Cnt)
+		SampleRun(r, b, "directed scenario "+b.Spec.Profile)
 	}
-	plan := []Plan{{"silent-f", 1500, 60000}, {"partition", 1500, 60000}, {"amnesia", 1000, 40000}}
+	plan := []Plan{{"silent-f", 1500, 60000}, {"partition", 1500, 60000}, {"amnesia", 1000, 40000}, {"async-then-sync", 1500, 60000}}
 	RunPlan(r, plan, func(s Spec) {
 		live := &mon.Live{}
 		agree := &mon.Agree{}
@@ -30,6 +35,7 @@ func C09(r *ev.Run) {
 			}
 		}
 		live.FromStart = s.Profile == "silent-f"
+		live.AsyncPrefix = s.Profile == "async-then-sync"
 		b.Go()
 		Report(r, b, live.Viols)
 		Report(r, b, agree.Viols)
